@@ -11,6 +11,8 @@ import (
 	"os/exec"
 	"path/filepath"
 	"runtime"
+	"runtime/debug"
+	"runtime/pprof"
 	"sort"
 	"strconv"
 	"strings"
@@ -28,6 +30,7 @@ const (
 )
 
 func main() {
+	debug.SetGCPercent(400)
 	if len(os.Args) < 2 {
 		usage()
 	}
@@ -343,7 +346,13 @@ func cmdRun(args []string) int {
 	maxPaths := fs.Int("max-paths", 0, "")
 	order := fs.Bool("order", false, "map order mode")
 	noreplay := fs.Bool("noreplay", false, "")
+	prof := fs.String("cpuprofile", "", "")
 	fs.Parse(args)
+	if *prof != "" {
+		f, _ := os.Create(*prof)
+		pprof.StartCPUProfile(f)
+		defer pprof.StopCPUProfile()
+	}
 	ps := pkgSpecs[*pkg]
 	t := 0
 	if *tier == "thorough" {
@@ -376,7 +385,11 @@ func cmdRun(args []string) int {
 			ro := rp.run(p, 20*time.Second)
 			fmt.Printf("candidate %d kind=%s assert=%s msg=%s pos=%s\n  native: outcome=%s detail=%s confirmed=%v\n  case=%s\n", i, c.Kind, c.AssertID, truncate(c.Msg, 200), c.Pos, ro.Outcome, truncate(ro.Detail, 300), confirms(c, ro), p)
 			for k, v := range c.Observes {
-				fmt.Printf("    predicted %s = %s   native = %s\n", k, v, ro.Obs[k])
+				fmt.Printf("    %s = %s", k, prettyObs(v))
+				if ro.Obs[k] != v {
+					fmt.Printf("   NATIVE DIFFERS: %s", prettyObs(ro.Obs[k]))
+				}
+				fmt.Println()
 			}
 		}
 	}
@@ -422,7 +435,7 @@ func cmdReplay(args []string) int {
 	ro := rp.run(args[0], 30*time.Second)
 	fmt.Printf("outcome=%s\n%s\n", ro.Outcome, ro.Detail)
 	for k, v := range ro.Obs {
-		fmt.Printf("obs %s = %s\n", k, v)
+		fmt.Printf("obs %s = %s\n", k, prettyObs(v))
 	}
 	if ro.Outcome == "ok" {
 		return 0
@@ -431,3 +444,27 @@ func cmdReplay(args []string) int {
 }
 
 var _ = ssa.InstantiateGenerics
+
+// prettyObs decodes the hex-encoded strings of the canonical rendering.
+func prettyObs(s string) string {
+	var out strings.Builder
+	for i := 0; i < len(s); {
+		if strings.HasPrefix(s[i:], "s:") {
+			j := i + 2
+			for j < len(s) && strings.IndexByte("0123456789abcdef", s[j]) >= 0 {
+				j++
+			}
+			b := make([]byte, 0, (j-i)/2)
+			for k := i + 2; k+1 < j; k += 2 {
+				v, _ := strconv.ParseUint(s[k:k+2], 16, 8)
+				b = append(b, byte(v))
+			}
+			out.WriteString(strconv.Quote(string(b)))
+			i = j
+			continue
+		}
+		out.WriteByte(s[i])
+		i++
+	}
+	return out.String()
+}
